@@ -451,6 +451,49 @@ func run(c *core.Ctx) {
 					}
 					emitEM("padding-shortened", d, label, body, em, fmt.Sprintf("%s prefix%d FF run shortened by %d, garbage appended", hs.name, pi+1, j))
 				}
+				// the same DigestInfo in encodings a lenient ASN.1 reader would take for it: extra octets inside either
+				// SEQUENCE (lengths raised to match, padding shortened), long-form and indefinite lengths, a NULL with
+				// content, other parameter types - none of them is the encoded message the property names
+				if c.Thorough() || (hi+pi)%2 == 0 {
+					oid := prefix[4 : 6+int(prefix[5])]
+					tlv := func(tag byte, content []byte, longForm bool) []byte {
+						if longForm || len(content) > 127 {
+							return append([]byte{tag, 0x81, byte(len(content))}, content...)
+						}
+						return append([]byte{tag, byte(len(content))}, content...)
+					}
+					cat := func(parts ...[]byte) []byte {
+						var o []byte
+						for _, p := range parts {
+							o = append(o, p...)
+						}
+						return o
+					}
+					null := []byte{5, 0}
+					if pi == 1 {
+						null = nil
+					}
+					oct := tlv(4, dg, false)
+					type variant struct {
+						name string
+						di   []byte
+					}
+					vs := []variant{
+						{"one extra octet at the end of the AlgorithmIdentifier", tlv(0x30, cat(tlv(0x30, cat(oid, null, []byte{0}), false), oct), false)},
+						{"a second NULL at the end of the AlgorithmIdentifier", tlv(0x30, cat(tlv(0x30, cat(oid, null, []byte{5, 0}), false), oct), false)},
+						{"eight extra octets at the end of the AlgorithmIdentifier", tlv(0x30, cat(tlv(0x30, cat(oid, null, []byte{4, 6, 1, 2, 3, 4, 5, 6}), false), oct), false)},
+						{"extra octets after the digest inside the DigestInfo", tlv(0x30, cat(tlv(0x30, cat(oid, null), false), oct, []byte{5, 0}), false)},
+						{"long-form length of the DigestInfo", tlv(0x30, cat(tlv(0x30, cat(oid, null), false), oct), true)},
+						{"long-form length of the AlgorithmIdentifier", tlv(0x30, cat(tlv(0x30, cat(oid, null), true), oct), false)},
+						{"long-form length of the digest", tlv(0x30, cat(tlv(0x30, cat(oid, null), false), tlv(4, dg, true)), false)},
+						{"NULL with one content octet", tlv(0x30, cat(tlv(0x30, cat(oid, []byte{5, 1, 0}), false), oct), false)},
+						{"parameters: an empty OCTET STRING", tlv(0x30, cat(tlv(0x30, cat(oid, []byte{4, 0}), false), oct), false)},
+						{"indefinite-length DigestInfo", cat([]byte{0x30, 0x80}, tlv(0x30, cat(oid, null), false), oct, []byte{0, 0})},
+					}
+					for _, v := range vs {
+						emitEM("digestinfo-reencoded", d, label, body, buildEM(k, nil, v.di), fmt.Sprintf("%s prefix%d: %s", hs.name, pi+1, v.name))
+					}
+				}
 				// one FF replaced by 00 right before the separator / right after the block type
 				{
 					em := append([]byte{0}, base[:k-1]...) // shifted right: 00 00 01 FF.. (digest loses its last byte)
